@@ -189,3 +189,25 @@ Proof.
   transitivity (phi / (4 * mpi * (maxw - minw)) * (delta * inject_Z (Z.of_nat nbins))); [ring|].
   rewrite Hd. assert (~ mpi == 0) by (unfold mpi; intro E; discriminate E). field. split; [assumption|lra].
 Qed.
+
+(* ---- emission is added to what the spectrum holds ------------------------------------------ *)
+Lemma Qsum_map_add (l : list Q) r : Qsum (map (fun s => s + r) l) == Qsum l + inject_Z (Z.of_nat (length l)) * r.
+Proof.
+  induction l as [|x t IH]; [cbn; ring|].
+  cbn [map Qsum length]. rewrite IH, Nat2Z.inj_succ. unfold Z.succ. rewrite inject_Z_plus. ring.
+Qed.
+
+Lemma spectrum_after_spec old o delta :
+  ((forall r, o <> Emit r) -> spectrum_after old o = old) /\
+  (forall k, (k < length old)%nat -> nth k (spectrum_after old o) 0 == nth k old 0 + emitted o) /\
+  integrate_bins (spectrum_after old o) delta ==
+  integrate_bins old delta + emitted o * (delta * inject_Z (Z.of_nat (length old))).
+Proof.
+  split; [|split].
+  - intros H. destruct o; try reflexivity. exfalso. apply (H r). reflexivity.
+  - intros k Hk. destruct o; cbn [spectrum_after emitted]; try ring.
+    rewrite (nth_indep _ 0 (0 + r)) by (rewrite map_length; exact Hk).
+    rewrite (map_nth (fun s => s + r) old 0 k). ring.
+  - unfold integrate_bins. destruct o; cbn [spectrum_after emitted]; try ring.
+    rewrite Qsum_map_add. ring.
+Qed.
